@@ -1,6 +1,6 @@
 (* Dispatcher from case kinds to the codec models and the property oracle of C14. *)
 From Coq Require Import ZArith List String.
-From ST Require Import Base.Ints Base.Value Base.Bytes Model.CodecNtp Model.CodecCsptp Model.CodecNtske Model.CodecCookie Extract.GlueBase.
+From ST Require Import Base.Ints Base.Value Base.Bytes Model.CodecNtp Model.CodecCsptp Model.CodecNtske Model.CodecCookie Model.CodecNts Extract.GlueBase.
 Import ListNotations.
 Open Scope string_scope.
 Open Scope Z_scope.
@@ -131,6 +131,8 @@ Definition cs_enc_case (k : Z) (a o : list value) : option verdict :=
                 (n' =? Z.of_nat ns) &&
                 match getZs df with
                 | Some dz => C14_fixed_enc_ok ns v' buf (zb pan) enc (zb dok) dz (zb sok)
+                             (* the padding of a request TLV is written as zeros *)
+                             && (negb (k =? 1) || zb pan || forallb (Z.eqb 0) (slice enc 14 (ns - 14)))
                 | None => false end
             | _ => false end in
           Some (functional expected o oracle)
@@ -355,10 +357,95 @@ Definition glue_cookie (k : string) (a o : list value) : option verdict :=
     | _, _ => None end
   else None.
 
+(* ---------------- NTS extension fields ---------------- *)
+
+Definition ext_val_val (e : ext_val) : value := let '(t, l, v) := e in VL [VZ t; VZ l; VB v].
+Definition nts_pkt_val (p : nts_pkt) : value :=
+  VL [ext_val_val (np_uid p); VL (map ext_val_val (np_cookies p));
+      VL (map (fun c => VL [VZ (fst c); VZ (snd c)]) (np_placeholders p));
+      (let '(t, l, n, c) := np_auth p in VL [VZ t; VZ l; VB n; VB c])].
+
+Definition ext_val_of (v : value) : option ext_val :=
+  match v with VL [VZ t; VZ l; VB x] => Some (t, l, x) | _ => None end.
+Fixpoint ext_vals_of (l : list value) : option (list ext_val) :=
+  match l with
+  | [] => Some []
+  | v :: r => match ext_val_of v, ext_vals_of r with Some x, Some xs => Some (x :: xs) | _, _ => None end
+  end.
+Fixpoint pairs_of (l : list value) : option (list (Z * Z)) :=
+  match l with
+  | [] => Some []
+  | VL [VZ t; VZ n] :: r => match pairs_of r with Some xs => Some ((t, n) :: xs) | None => None end
+  | _ => None
+  end.
+Definition nts_pkt_of (v : value) : option nts_pkt :=
+  match v with
+  | VL [u; VL cs; VL ps; VL [VZ t; VZ l; VB n; VB c]] =>
+      match ext_val_of u, ext_vals_of cs, pairs_of ps with
+      | Some u', Some cs', Some ps' =>
+          Some {| np_uid := u'; np_cookies := cs'; np_placeholders := ps'; np_auth := (t, l, n, c) |}
+      | _, _, _ => None end
+  | _ => None
+  end.
+
+Definition field_len (v : list Z) : nat := (4 + pad4len (length v))%nat.
+Definition sum_field_lens (l : list (list Z)) : nat := fold_right (fun v s => (field_len v + s)%nat) 0%nat l.
+
+Fixpoint nts_dec_hist (p : nts_pkt) (bs : list value) : option (list value) :=
+  match bs with
+  | [] => Some []
+  | VB b :: r => let d := nts_decode p b in
+                 match nts_dec_hist (fst d) r with
+                 | Some os => Some (VL [VZ (snd d); nts_pkt_val (fst d)] :: os)
+                 | None => None end
+  | _ => None
+  end.
+
+Definition glue_nts (k : string) (a o : list value) : option verdict :=
+  if is k "nts.enc" then
+    match a, o with
+    | [VB hdr; VB tail; VB id; VL cs; VL ps; VB _; VB pt; VB tape], [VZ pan; VB enc; VZ derr; dv; VZ authok] =>
+        match getBs cs, getBs ps with
+        | Some cookies, Some phs =>
+            let p := {| ni_id := id; ni_cookies := cookies; ni_placeholders := phs |} in
+            let nonce := firstn 16 tape in
+            (* the ciphertext is the AEAD's business: it is read off the observed encoding at the
+               place the format puts it (len(plaintext) + 16 bytes after the 16-byte nonce) *)
+            let authpos := (48 + field_len id + sum_field_lens cookies + sum_field_lens phs)%nat in
+            let ctlen := (length pt + 16)%nat in
+            let ct := zpad ctlen (skipn (authpos + 24) enc) in
+            let wire_len := (authpos + 8 + 16 + pad4len ctlen)%nat in
+            let expected :=
+              match nts_encode hdr tail p nonce ct with
+              | Ok e => let d := nts_decode nts_pkt_empty e in
+                        [VZ 0; VB e; VZ (snd d); nts_pkt_val (fst d); VZ authok]
+              | _ => [VZ 1; VB []; VZ 0; VL []; VZ 0]
+              end in
+            (* the property speaks about packets that have a wire form: identifier of at
+               least 32 bytes, everything within the maximum packet length *)
+            let oracle :=
+              if (32 <=? length id)%nat && (wire_len <=? 1024)%nat then
+                negb (zb pan) && zb authok &&
+                match nts_pkt_of dv with
+                | Some d => C14_nts_ok hdr p nonce ct enc derr d
+                | None => false end
+              else true in
+            Some (functional expected o oracle)
+        | _, _ => None end
+    | _, _ => None end
+  else if is k "nts.dec" then
+    match a with
+    | [VL bs] => match nts_dec_hist nts_pkt_empty bs with
+                 | Some os => Some (functional [VL os] o true)
+                 | None => None end
+    | _ => None end
+  else None.
+
 Definition glue_C14 (k : string) (a o : list value) : option verdict :=
   match glue_ntp k a o with Some v => Some v | None =>
   match glue_csptp k a o with Some v => Some v | None =>
-  match glue_ntske k a o with Some v => Some v | None => glue_cookie k a o end end end.
+  match glue_ntske k a o with Some v => Some v | None =>
+  match glue_cookie k a o with Some v => Some v | None => glue_nts k a o end end end end.
 
 Definition run_case (k : string) (a o : list value) : verdict :=
   first_some [glue_C14] k a o.
